@@ -24,9 +24,10 @@ CLAIMED = {
         engine="E1-denote-replay",
         technique="TLA+ algebra-on-denotations model (LOAlgebra) enumerated by TLC; depth-2 programs replayed into the library step by step",
         text=("TLC enumerates depth-2 expression programs (spec/MC_C02.tla): every ordered pair of the 33 operator classes x {+,-,@} x "
-              "batch-shape pairs, class x tensor operand in both orders, class x 7 scalar kinds x {*, reflected *, /}, class x 18 unary "
-              "batch / diagonal operations, PSD class pairs x root-based operations (elementwise product, add_low_rank, cat_rows, batch prod), "
-              "each followed by a second operation on the result; TLC checks the algebra invariants and logs the exact dense value of every "
+              "batch-shape pairs, class x tensor operand in both orders, class x 8 scalar kinds (python / 0-d / batches of constants incl. mixed sign) x {*, reflected *, /}, class x tensor (full, row, "
+              "column) elementwise products, class x 18 unary batch / diagonal operations, PSD class pairs x root-based operations (elementwise "
+              "product, add_low_rank, cat_rows, batch prod), each followed by a second operation on the result and, for root-carrying results, "
+              "by the Gram matrix of the result's root / inverse root (a repeated repeat for batch results); TLC checks the algebra invariants and logs the exact dense value of every "
               "step; the replay compares shape and value after each step in several public spellings. Result class is ignored; an explicit "
               "not-supported error is accepted only in cells of spec/unsupported_C02.json."),
         design="5/C02"),
